@@ -5,7 +5,7 @@
    [wfm r c M] says that M has r rows of length c; [ratio dim anis k] is the k-th entry of (1, anis') where anis'
    is the padded ratio list set_anis dim anis; [sumf n f] = f 0 + ... + f (n-1). *)
 From Coq Require Import Reals List.
-From GS Require Import Num Loops C12_Model C12_Mat C12_Bridge C12_Proofs C12_Proofs2.
+From GS Require Import Num Loops C12_Model C12_Mat C12_Bridge C12_Proofs C12_Proofs2 C12_Proofs3.
 Import ListNotations.
 Open Scope R_scope.
 
@@ -72,10 +72,10 @@ Theorem C12_positions_round_trip : forall (dim : nat) (angles anis : list R) (n 
 Proof. exact positions_round_trip. Qed.
 Print Assumptions C12_positions_round_trip.
 
-(* proper rotation: explicit determinants, dims 1, 2, 3 *)
+(* proper rotation: explicit determinants (Leibniz / Laplace formulas det2, det3, det4 of C12_Mat.v), dims 1-4 *)
 Theorem C12_rotate_det_one : forall angles : list R,
   matrix_rotate Rops 1 angles = [[1]] /\ det2 (mof (matrix_rotate Rops 2 angles)) = 1 /\
-  det3 (mof (matrix_rotate Rops 3 angles)) = 1.
+  det3 (mof (matrix_rotate Rops 3 angles)) = 1 /\ det4 (mof (matrix_rotate Rops 4 angles)) = 1.
 Proof. exact rotate_det_one. Qed.
 Print Assumptions C12_rotate_det_one.
 
@@ -145,6 +145,16 @@ Theorem C12_pipeline_isotropic_twin : forall (dim : nat) (angles anis : list R) 
   isometrize Rops dim [] [] (isometrize Rops dim angles anis pos) = isometrize Rops dim angles anis pos.
 Proof. exact isotropic_twin. Qed.
 Print Assumptions C12_pipeline_isotropic_twin.
+
+(* a list of (>= 2) positive length scales is reproduced: set_len_anis turns it into ratios whose len_scale_vec is the
+   list itself, truncated to dim and padded with its last value (edge_pad) *)
+Theorem C12_len_scale_list_roundtrip : forall (dim : nat) (ls anis : list R),
+  (0 < dim)%nat -> (2 <= length (firstn dim ls))%nat -> Forall (fun l => 0 < l) ls ->
+  exists an, set_len_anis Rops dim ls anis false = Some (nth 0 ls 0, an) /\
+    length an = (dim - 1)%nat /\ Forall (fun a => 0 < a) an /\
+    len_scale_vec Rops dim (nth 0 ls 0) an = edge_pad dim ls.
+Proof. exact len_scale_list_roundtrip. Qed.
+Print Assumptions C12_len_scale_list_roundtrip.
 
 Theorem C12_hypotheses_satisfiable :
   (0 < 3)%nat /\ Forall (fun a => 0 < a) [2; / 2] /\ wfm 3 2 [[1; 2]; [3; 4]; [5; 6]] /\
